@@ -35,6 +35,18 @@ data:
   hook: "1"
 `
 
+// a second hook for the events after the resources have been applied
+const postHookTpl = `apiVersion: v1
+kind: ConfigMap
+metadata:
+  name: posthook-{{ .Template.BasePath | replace "/" "-" | lower }}
+  annotations:
+    "helm.sh/hook": post-install,post-upgrade
+    "helm.sh/hook-delete-policy": before-hook-creation
+data:
+  hook: "2"
+`
+
 const notesTpl = `NOTES {{ .Template.BasePath }}
 `
 
@@ -150,6 +162,31 @@ func crdPlural(prefix string) string {
 	return out
 }
 
+// instOfHookObject("hook-root-charts-mid-charts-leaf-templates") = ("mid/leaf", "hook")
+func instOfHookObject(name string) (string, string, bool) {
+	kind := ""
+	switch {
+	case strings.HasPrefix(name, "posthook-"):
+		kind, name = "posthook", strings.TrimPrefix(name, "posthook-")
+	case strings.HasPrefix(name, "hook-"):
+		kind, name = "hook", strings.TrimPrefix(name, "hook-")
+	default:
+		return "", "", false
+	}
+	parts := strings.Split(name, "-")
+	if len(parts) < 2 || parts[0] != "root" || parts[len(parts)-1] != "templates" {
+		return "", "", false
+	}
+	inst := []string{}
+	for i := 1; i+1 < len(parts)-1; i += 2 {
+		if parts[i] != "charts" {
+			return "", "", false
+		}
+		inst = append(inst, parts[i+1])
+	}
+	return strings.Join(inst, "/"), kind, true
+}
+
 // rawPathOfCRD("root-mid-leaf.verif.example") = ["mid","leaf"]
 func rawPathOfCRD(name string) ([]string, bool) {
 	if !strings.HasSuffix(name, ".verif.example") {
@@ -196,6 +233,7 @@ func (c *Case) Files(o BuildOpts) []*loader.BufferedFile {
 		if !def.NoTpl {
 			add(prefix+"templates/probe.yaml", fmt.Sprintf(probeTpl, pre))
 			add(prefix+"templates/hook.yaml", hookTpl)
+			add(prefix+"templates/posthook.yaml", postHookTpl)
 			add(prefix+"templates/NOTES.txt", notesTpl)
 		}
 		if def.Crds {
@@ -257,6 +295,8 @@ func instOf(path string) (string, string, bool) {
 		kind = "probe"
 	case "templates/hook.yaml":
 		kind = "hook"
+	case "templates/posthook.yaml":
+		kind = "posthook"
 	case "templates/NOTES.txt":
 		kind = "notes"
 	case "crds/crd.yaml":
